@@ -445,7 +445,7 @@ fn build_labelled<'a>(d: &'a PrettifiableDataset) -> BTreeSet<&'a SimpleTerm<'a>
                             named_graphs: [q.g()].into_iter().collect(),
                             out_degree: usize::from(i == 0),
                             predecessor: if i == 2 { Some(q.s()) } else { None },
-                            visited: false,
+                            visited: 0,
                         });
                 }
                 TermKind::Triple => {
@@ -465,7 +465,7 @@ fn build_labelled<'a>(d: &'a PrettifiableDataset) -> BTreeSet<&'a SimpleTerm<'a>
                                 named_graphs: Default::default(),
                                 out_degree: 0,
                                 predecessor: None,
-                                visited: false,
+                                visited: 0,
                             });
                     }
                 }
@@ -473,24 +473,33 @@ fn build_labelled<'a>(d: &'a PrettifiableDataset) -> BTreeSet<&'a SimpleTerm<'a>
             }
         }
     }
-    // detect blank node cycles
+    // detect blank node cycles:
+    // from each node not visited yet, walk up the chain of predecessors,
+    // stamping the nodes with the number of the current walk (0 means "not visited");
+    // coming back to a node bearing the stamp of the current walk closes a cycle,
+    // and that node is forced to be labelled.
+    // (A node stamped by a previous walk needs not be walked again:
+    // that walk went all the way up from it, and broke the cycle it ended in, if any.)
     let keys: Vec<_> = profiles.keys().copied().collect();
-    for key in keys {
+    for (i, key) in keys.into_iter().enumerate() {
+        let stamp = i + 1;
         let profile = profiles.get_mut(&key).unwrap();
-        if profile.bad || profile.visited {
+        if profile.bad || profile.visited != 0 {
             continue;
         }
-        profile.visited = true;
+        profile.visited = stamp;
         let mut current = profile.predecessor;
         while let Some(t) = current {
             if let Some(p) = profiles.get_mut(&t) {
-                if t == key {
+                if p.bad {
+                    break;
+                } else if p.visited == stamp {
                     p.bad = true;
                     break;
-                } else if p.bad || p.visited {
+                } else if p.visited != 0 {
                     break;
                 } else {
-                    p.visited = true;
+                    p.visited = stamp;
                     current = p.predecessor;
                 }
             } else {
@@ -509,7 +518,8 @@ struct BnodeProfile<'a> {
     named_graphs: BTreeSet<GraphName<&'a SimpleTerm<'a>>>,
     out_degree: usize,
     predecessor: Option<&'a SimpleTerm<'a>>,
-    visited: bool,
+    /// number of the walk (in the detection of cycles) that visited this node, 0 if none
+    visited: usize,
 }
 
 impl<'a> BnodeProfile<'a> {
